@@ -5,7 +5,7 @@
    by ownership destruction, release() discarded or co_await release().
    holds s c   : c owns the mutex (from its successful CAS / the hand-over to the end of its unlock)
    waiting s c : c has published a request that was not granted yet. *)
-From Cocls Require Import Base BaseProofs MutexDefs MutexProofs.
+From Cocls Require Import Base BaseProofs MutexDefs MutexProofs MutexSched MutexObs.
 Local Open Scope Z_scope.
 
 (* at most one owner in every reachable state *)
@@ -56,6 +56,35 @@ Theorem c07_sentinel_never_queued : forall ops s, reachable ops s ->
   err s = false /\ dnext s = PNull /\ (queue s = PNull \/ exists w, queue s = PNode w /\ waiting s w).
 Proof. exact sentinel_never_queued. Qed.
 Print Assumptions c07_sentinel_never_queued.
+
+(* thread level: a coroutine contender is in exactly one place when it can run (executing on exactly one OS
+   thread, or exactly once in exactly one ready queue) and nowhere while parked or finished: it is never
+   resumed concurrently with itself, never resumed twice for one grant, never queued while it runs.
+   occ counts "executing on a thread" + occurrences in all ready queues. *)
+Theorem c07_never_concurrent_with_itself : forall ops s c, reachable ops s -> tk (gtask s c) = KCoro ->
+  occ (thrs s) c = (if live (tpc (gtask s c)) then 1 else 0)%nat /\
+  (forall t t', run (gthr s t) = TRun c -> run (gthr s t') = TRun c -> t = t') /\
+  (forall t t', run (gthr s t) = TRun c -> ~ In c (tq (gthr s t'))) /\
+  (forall t t', In c (tq (gthr s t)) -> In c (tq (gthr s t')) -> t = t') /\
+  (forall t, (count_occ Nat.eq_dec (tq (gthr s t)) c <= 1)%nat) /\
+  (live (tpc (gtask s c)) = false -> forall t, run (gthr s t) <> TRun c /\ ~ In c (tq (gthr s t))).
+Proof. exact one_place. Qed.
+Print Assumptions c07_never_concurrent_with_itself.
+
+(* the thread-level invariant is inductive over every step *)
+Theorem c07_location_invariant_inductive : forall s t, SInv s -> LInv s -> enabled s t = true -> LInv (fst (fst (tstep s t))).
+Proof. exact step_linv. Qed.
+Print Assumptions c07_location_invariant_inductive.
+
+(* observable form: the scenario's critical-section overlap detector never fires; at most one contender is inside the
+   critical section, it owns the mutex and is at the cs point; a contender waiting in a ready queue is not inside *)
+Theorem c07_overlap_never : forall ops s, reachable ops s ->
+  ovl s = false /\
+  (forall x y, incs (gtask s x) = true -> incs (gtask s y) = true -> x = y) /\
+  (forall x, incs (gtask s x) = true -> holds s x /\ tpc (gtask s x) = PCs) /\
+  (forall t x, In x (tq (gthr s t)) -> incs (gtask s x) = false).
+Proof. exact overlap_never. Qed.
+Print Assumptions c07_overlap_never.
 
 (* non-vacuity: coroutine 0 owns the mutex, coroutine 1 has published and its thread is still inside
    await_suspend, plain thread 2 has published too *)
